@@ -2,6 +2,8 @@
 what counts as a non-trivial case, the theorems, and the classifier that turns a failing case
 into a signature for known_findings.json."""
 
+import json
+
 PROPS = {
     'C20': {
         'engines': [('explore', 150, 3000, ['-shardsize', '50'])],
@@ -262,6 +264,35 @@ PROPS = {
                         'Gen/Consts.v regenerated from the Go source by kvharness translate (minWaitScrapeTimes, relief threshold table as exact '
                         'binary64)',
                         'Go map iteration = any permutation, weightedrand.Pick = any eligible shard (Base/Sched.v)']},
+    'C02': {
+        'engines': [('route', 400, 8000, ['-shardsize', '100'])],
+        'rule': 'one PRNG: one job (scheme http/https, 2 paths, 0-2 params with 1-2 values) and 1-2 target groups (0-2 group labels, 1-3 entries '
+                'each over addresses without port / with port / invalid / missing, 0-3 labels from env, zone, app, __meta_*, a __meta_ label '
+                'whose mapped name starts with a digit, __scheme__, __metrics_path__, instance, a discovered __param_, job; duplicated entries '
+                'inside and across groups) and 0-3 relabel rules from 15 templates of the modelled subset (replace incl. the blackbox pattern that '
+                'overrides a configured param, into __address__/__scheme__/__metrics_path__/job/instance, with empty replacement; keep/drop on '
+                'literal and alternation patterns over joined sources; labelmap with and without a new prefix; labeldrop; rules that READ the '
+                'interval labels, rarely); 1/6 of the cases use arbitrary regexes / hashmod / non-ASCII values (reference vs system only). '
+                'Reference = scrape.TargetsFromGroup of the Prometheus library on the original job, de-duplicated as the scrape pool does. System = '
+                'real TargetsDiscovery -> ActiveTargetsByHash -> JSON -> real Injector -> config.Load of the written file -> TargetsFromGroup on '
+                'the generated job -> real Proxy.ServeHTTP with a recording client. Compared: visible labels and the URL really requested. '
+                'non-trivial = the reference has >= 1 active target; distinct by input',
+        'theorems': 'C02_proxy_restores C02_routing_param_forgotten C02_param_shipping C02_equiv_refuted_interval_labels (+ computed witnesses)',
+        'trusted_base': ['Model/Translate.v hand-written model of BOTH routes (library PopulateLabels/Target.URL as reference; kvass populateLabels, '
+                         'param/invalid-name shipping, target2targetGroup, library PopulateLabels on the shard, translateURL); both are compared with '
+                         'the real code on every run: model-of-reference vs library, model-of-system vs kvass, and reference vs system (the property)',
+                         'relabel interpreter for a literal-pattern subset (in the theorems relabeling is a parameter)',
+                         'port test / address check / interval check are predicates instantiated for the generated address shapes'],
+        'assumptions': ['the general equivalence theorem is not yet proved (see Properties/C02.v STATUS); the property is decided by the differential run',
+                        'label names that the prefix cannot make valid (illegal characters) cannot be produced by Prometheus relabeling (labelmap can only '
+                        'produce a leading digit); they would make the generated file invalid',
+                        'no discovered or relabelled label uses the three routing parameter names'],
+        'level_text': 'Proof (partial): executable Gallina model of both routes tied to the library and to kvass by a three-way differential run on '
+                      'every run; theorems for the proxy round trip of the routing parameters, the shipping rule for configured params, computed '
+                      'end-to-end witnesses, and a machine-checked refutation of the unrestricted statement (relabel rules that read the interval '
+                      'labels: known finding). Missing: the general equivalence theorem for every relabel function under the stated hypotheses.',
+        'level_note': 'Trusted: Coq kernel; hand-written two-route model; the differential run carries the equivalence claim (partial proof).',
+    },
     'C11': {
         'engines': [('inject', 300, 6000, ['-shardsize', '50'])],
         'rule': 'one PRNG: configuration TEXTS with/without global (+external labels), 0-2 rule files, alerting with an Alertmanager using none/basic/'
@@ -424,6 +455,11 @@ def classify(prop, engine, case, failed_extra=()):
         return 'C20-explore-other'
     if engine == 'store':
         return 'C09-store-%s' % (case.get('observed') or {}).get('Seen')
+    if engine == 'route':
+        text = json.dumps(inp.get('Rules') or []) + (inp.get('RawRelabel') or '')
+        if '__scrape_interval__' in text or '__scrape_timeout__' in text:
+            return 'C02-relabel-reads-scrape-interval-labels'
+        return 'C02-route'
     if engine == 'inject':
         return 'C11-inject'
     if engine == 'cfghash':
